@@ -879,6 +879,8 @@ class TorConfig:
             elif real_name in self.parsers:
                 v = self.parsers[real_name].parse(v)
             self.config[real_name] = v
+            if self.__dict__.get('_changed_during_setup') is not None:
+                self.__dict__['_changed_during_setup'].add(real_name)
 
     def bootstrap(self, arg=None):
         '''
@@ -905,6 +907,7 @@ class TorConfig:
         return None
 
     def do_post_bootstrap(self, arg):
+        self.__dict__['_changed_during_setup'] = None
         if not self.post_bootstrap.called:
             self.post_bootstrap.callback(self)
         return self
@@ -1046,6 +1049,9 @@ class TorConfig:
     @defer.inlineCallbacks
     def _do_setup(self, data):
         defaults = self.__dict__['_defaults'] = yield self._get_defaults()
+        # options Tor announces a change of (CONF_CHANGED) while we
+        # are between two round-trips for that very option
+        changed = self.__dict__['_changed_during_setup'] = set()
 
         for line in data.split('\n'):
             if line == "config/names=":
@@ -1071,6 +1077,7 @@ class TorConfig:
                 rn = self._find_real_name(name[:-5])
                 self.parsers[rn] = String()  # not Port() because options etc
                 self.list_parsers.add(rn)
+                changed.discard(rn)
                 v = yield self.protocol.get_conf(name[:-5])
                 v = v[name[:-5]]
 
@@ -1093,8 +1100,11 @@ class TorConfig:
                     initial = [self.parsers[rn].parse(x) for x in v]
                 else:
                     initial = [self.parsers[rn].parse(v)]
-                self.config[rn] = _ListWrapper(
-                    initial, functools.partial(self.mark_unsaved, rn))
+                if rn not in changed:
+                    # (otherwise Tor has told us a newer value since
+                    # we asked, which _conf_changed has stored)
+                    self.config[rn] = _ListWrapper(
+                        initial, functools.partial(self.mark_unsaved, rn))
 
             # XXX for Virtual check that it's one of the *Ports things
             # (because if not it should be an error)
